@@ -8,18 +8,21 @@ seq 1, then the lineage frame is written with the hard-coded seq 1. -/
 def branchRaceProgs : List (List Op) := [[.create 7], [.append 7]]
 
 def branchRaceSched : List Act :=
-  [.step 0, .step 0,                       -- A: creation frame @0; map[7] := 1
+  [.step 0, .step 0, .step 0,              -- A: (no lock) creation frame @0; map[7] := 1
    .step 1, .step 1, .step 1, .step 1,     -- B: lock, message @1, bump, unlock
    .step 0, .step 0]                       -- A: lineage frame @1 (hard-coded); map[7] := 2
 
+/-- the code before the repair: duplicate seq 1, the store no longer replays -/
 theorem branch_race :
-    (run branchRaceProgs branchRaceSched).log = [(7, 0), (7, 1), (7, 1)] ∧
-    validLog (run branchRaceProgs branchRaceSched).log = false := by decide
+    (run false (fun _ => false) branchRaceProgs branchRaceSched).log = [(7, 0), (7, 1), (7, 1)] ∧
+    validLog (run false (fun _ => false) branchRaceProgs branchRaceSched).log = false := by decide
 
-/-- without the early address the same two writers are harmless -/
-theorem no_race_when_addressed_later :
-    validLog (run [[.create 7, .append 7], [.append 3]]
-      [.step 0, .step 1, .step 0, .step 1, .step 0, .step 0, .step 1, .step 1, .step 0, .step 0, .step 0, .step 0]).log = true := by
+/-- the same schedule on the repaired protocol: B waits for the lock and takes seq 2 -/
+theorem branch_race_repaired :
+    validLog (run true (fun _ => false) branchRaceProgs
+      (branchRaceSched ++ [.step 0, .step 0, .step 1, .step 1, .step 1, .step 1])).log = true ∧
+    (run true (fun _ => false) branchRaceProgs
+      (branchRaceSched ++ [.step 0, .step 0, .step 1, .step 1, .step 1, .step 1])).log = [(7, 0), (7, 1), (7, 2)] := by
   decide
 
 end Rip.Cex.C01
